@@ -153,7 +153,8 @@ def job(j):
 
 
 def configs(tier):
-    grid = [(1, 0), (1, 1), (1, 2), (2, 1), (0.5, 2)] if tier == 'thorough' else [(1, 1), (1, 2)]
+    # (timeouts are given as int and as float: both are legal constructor arguments)
+    grid = [(1, 0), (1, 1), (1, 2), (2, 1), (0.5, 2), (1.5, 1)] if tier == 'thorough' else [(1, 1), (1, 2), (0.5, 1)]
     for tr in ('udp', 'tcp'):
         for ka in (False, True):
             for (T, R) in grid:
@@ -233,12 +234,31 @@ def run(tier, seed, rep):
     conf = None
     if tier == 'thorough':
         # binding the kernel model to reality: the same traces on real loopback sockets (warning only, never a verdict)
+        # in a child process with a hard wall-clock limit: on real sockets there is no watchdog inside the loop, a
+        # library that hangs would hang the check
+        import multiprocessing as mp
+
+        def _child(q):
+            try:
+                from .. import conform
+                q.put(conform.run_all())
+            except BaseException as e:  # noqa: BLE001
+                q.put(f'{type(e).__name__}: {e}')
+        q = mp.get_context('fork').Queue()
+        pr = mp.get_context('fork').Process(target=_child, args=(q,), daemon=True)
+        pr.start()
         try:
-            from .. import conform
-            n_c, agree, mism = conform.run_all()
+            got = q.get(timeout=240)
+        except Exception:  # noqa: BLE001
+            got = 'no result within 240 s of wall-clock time (a request on real sockets did not terminate)'
+        if pr.is_alive():
+            pr.kill()
+        pr.join(5)
+        if isinstance(got, tuple):
+            n_c, agree, mism = got
             conf = dict(traces_replayed_on_real_loopback=n_c, agreeing_with_kernel_model=agree, persistent_mismatches=mism)
-        except Exception as e:  # noqa: BLE001
-            conf = dict(error=f'{type(e).__name__}: {e}')
+        else:
+            conf = dict(error=got)
     cov = dict(session_histories=_ses.executions, session_states=len(_ses.states), session_choice_points=_ses.choice_points,
                states=len(total.states), transitions=len(total.edges), executions=total.executions,
                traces_validated_against_impl=total.executions, choice_points=total.choice_points,
